@@ -143,6 +143,17 @@ func ruleFreeBitNonZero(r *Report) {
 				if sc := c.Call.StaticCallee(); sc != nil && sc.Pkg != nil && sc.Pkg.Pkg.Path() == "math/bits" {
 					bad = r.P.InstrPos(ins) + " (bits." + sc.Name() + " does not find a zero bit)"
 				}
+				// … and of the bitmap's own searches only MinZero finds a zero bit (Max, Min, MaxZero
+				// name a set bit or the last clear one)
+				if methodOn(&c.Call, "github.com/kelindar/bitmap", "Bitmap", "Min", "Max", "MaxZero") {
+					if v, isV := ins.(ssa.Value); isV {
+						for _, ret := range returnsOf(fn) {
+							if len(ret.Results) == 1 && dependsOn(ret.Results[0], func(z ssa.Value) bool { return z == v }, 6) {
+								bad = r.P.InstrPos(ins) + " (Bitmap." + c.Call.StaticCallee().Name() + " does not find a free offset)"
+							}
+						}
+					}
+				}
 				return
 			}
 			if !ok {
